@@ -35,7 +35,11 @@ from src.core.base import BaseLintContext, BaseLintRule
 from src.core.constants import HEADER_SCAN_LINES, IgnoreDirective, Language
 from src.core.linter_utils import path_in_project
 from src.core.types import Severity, Violation
-from src.linter_config.directive_markers import has_bare_file_ignore, has_bare_line_ignore
+from src.linter_config.directive_markers import (
+    has_bare_file_ignore,
+    has_bare_line_ignore,
+    source_lines,
+)
 from src.linter_config.ignore import get_ignore_parser
 from src.linter_config.rule_matcher import rule_matches
 
@@ -222,7 +226,7 @@ class StatelessClassRule(BaseLintRule):  # thailint: ignore[srp,dry]
             return False
 
         # Check first lines for ignore-file directive
-        lines = context.file_content.splitlines()[:HEADER_SCAN_LINES]
+        lines = source_lines(context.file_content)[:HEADER_SCAN_LINES]
         return any(self._is_file_ignore_directive(line) for line in lines)
 
     def _is_file_ignore_directive(self, line: str) -> bool:
@@ -427,7 +431,7 @@ class StatelessClassRule(BaseLintRule):  # thailint: ignore[srp,dry]
         if not context.file_content:
             return None
 
-        lines = context.file_content.splitlines()
+        lines = source_lines(context.file_content)
         if line_num <= 0 or line_num > len(lines):
             return None
 
